@@ -7,6 +7,7 @@ From Coq Require Import List NArith Arith Bool String.
 From SV Require Import Fmt.LongString Fmt.LongStringProofs Fmt.FgdBin Fmt.FgdBinProofs SM.LazyDb SM.LazyDbProofs SM.LazyDbMulti SM.LazyDbMultiProofs.
 From SV Require Import Fmt.FgdBinEnt Fmt.FgdBinEntProofs Fmt.FgdLine Fmt.FgdLineProofs Fmt.FgdLineTextProofs Fmt.FgdBody Fmt.FgdBodyProofs.
 From SV Require Import Fmt.FgdHead Fmt.FgdHeadProofs Fmt.FgdEntity Fmt.FgdEntityProofs.
+From SV Require Import Fmt.FgdTypeText Fmt.FgdTypeTextProofs SM.FgdBlocks SM.FgdBlocksProofs Fmt.FgdKindKw Fmt.FgdKindKwProofs.
 From SV Require Import Gen.FgdConsts_gen.
 Import ListNotations.
 Open Scope N_scope.
@@ -702,3 +703,216 @@ Definition overwrite_merge_breaks : bool :=
   | [Some ((a, _), _)], Some ((b, _), _), Some ((c, _), _) => negb (a =? b) && (a =? c)
   | _, _, _ => false
   end.
+
+(** * The type text of keyvalue / input / output lines (Fmt/FgdTypeText.v; round 4)
+    [kv_type_prog] / [io_type_prog] are read off KVDef._parse / IODef._parse by symbolic execution on every run (which string is
+    stripped, casefolded, compared, looked up in VALUE_TYPE_LOOKUP and stored as the custom type), [vt_lookup_tab] is
+    VALUE_TYPE_LOOKUP.  [fold] is str.casefold; the three laws hold for ASCII lower-casing ([c16_ascii_casefold_laws]). *)
+Definition TARGET_DESTINATION : str := [116; 97; 114; 103; 101; 116; 95; 100; 101; 115; 116; 105; 110; 97; 116; 105; 111; 110].
+Definition kv_type_prog_ok : bool := kv_prog_ok kv_type_prog.
+Definition io_type_prog_ok : bool := io_prog_ok TARGET_DESTINATION io_type_prog.
+Definition kv_unknown_type_kept_verbatim : bool := fallback_verbatim kv_type_prog.
+Definition io_unknown_type_kept_verbatim : bool := fallback_verbatim io_type_prog.
+Definition type_table_ok : bool := tab_ok lower vt_lookup_tab.
+Definition fold_then_fallback_breaks : bool := fold_fallback_breaks.
+
+(** every generated program that passes the obligation equals the hand model (known names matched case-insensitively, a leading
+    '*' = report, unknown names kept as written) on ALL token texts *)
+Theorem c16_kv_type_program_is_model : forall (fold : str -> str) (tab : list (str * str)),
+  (forall s, fold (fold s) = fold s) -> (forall s, fold (strip s) = strip (fold s)) -> (forall s, fold (tl s) = tl (fold s)) ->
+  forall p, kv_prog_ok p = true -> forall raw, trun fold tab p raw = spec_kv fold tab raw.
+Proof. exact kv_prog_is_model. Qed.
+Theorem c16_io_type_program_is_model : forall (fold : str -> str) (tab : list (str * str)),
+  (forall s, fold (fold s) = fold s) -> (forall s, fold (strip s) = strip (fold s)) -> (forall s, fold (tl s) = tl (fold s)) ->
+  forall special p, io_prog_ok special p = true -> forall raw, trun fold tab p raw = spec_io fold tab special raw.
+Proof. exact io_prog_is_model. Qed.
+(** export then parse is the identity on a custom type name (stripped, no leading '*', not a spelling of a known type / of
+    `ehandle`): the text between the parentheses is the name and it is read back as exactly that name *)
+Theorem c16_custom_kv_type_roundtrip : forall (fold : str -> str) (tab : list (str * str)) s,
+  strip s = s -> starts_star s = false -> assoc (fold s) tab = None ->
+  spec_kv fold tab (kv_type_text (Custom s)) = (false, Custom s).
+Proof. exact kv_custom_roundtrip. Qed.
+Theorem c16_custom_io_type_roundtrip : forall (fold : str -> str) (tab : list (str * str)) special io_text s,
+  strip s = s -> str_eqb s EHANDLE = false -> assoc (fold s) tab = None ->
+  spec_io fold tab special (io_type_text io_text (Custom s)) = (false, Custom s).
+Proof. exact io_custom_roundtrip. Qed.
+(** parse then export is idempotent on known types: whatever spelling was read, the canonical text that is written reads back
+    as the same member (keyvalues), resp. the written text is reproduced by the next parse + export (I/O, where types decay) *)
+Theorem c16_known_kv_type_idempotent : forall (fold : str -> str) (tab : list (str * str)) raw b c,
+  tab_ok fold tab = true -> spec_kv fold tab raw = (b, Known c) -> spec_kv fold tab (kv_type_text (Known c)) = (false, Known c).
+Proof. exact kv_known_idempotent. Qed.
+Theorem c16_known_io_type_idempotent : forall (fold : str -> str) (tab : list (str * str)) special (io_text decay : str -> str) raw c,
+  (forall c, spec_io fold tab special (io_text c) = (false, Known (decay c))) -> (forall c, io_text (decay c) = io_text c) ->
+  spec_io fold tab special raw = (false, Known c) ->
+  let text2 := io_type_text io_text (Known c) in
+  io_type_text io_text (snd (spec_io fold tab special text2)) = text2.
+Proof. exact io_known_idempotent. Qed.
+Theorem c16_ascii_casefold_laws :
+  (forall s, lower (lower s) = lower s) /\ (forall s, lower (strip s) = strip (lower s)) /\ (forall s, lower (tl s) = tl (lower s)).
+Proof. exact (conj lower_idem (conj lower_strip lower_tl)). Qed.
+(** composition for today's source: with the generated programs and table, a custom name survives export -> parse on keyvalue,
+    input and output lines, and re-reading what was written for a known type gives the same member *)
+Theorem c16_type_text_property :
+  kv_type_prog_ok = true -> io_type_prog_ok = true -> type_table_ok = true ->
+  (forall s, strip s = s -> starts_star s = false -> assoc (lower s) vt_lookup_tab = None ->
+     trun lower vt_lookup_tab kv_type_prog (kv_type_text (Custom s)) = (false, Custom s)) /\
+  (forall io_text s, strip s = s -> str_eqb s EHANDLE = false -> assoc (lower s) vt_lookup_tab = None ->
+     trun lower vt_lookup_tab io_type_prog (io_type_text io_text (Custom s)) = (false, Custom s)) /\
+  (forall raw b c, trun lower vt_lookup_tab kv_type_prog raw = (b, Known c) ->
+     trun lower vt_lookup_tab kv_type_prog (kv_type_text (Known c)) = (false, Known c)).
+Proof. exact (type_text_property_gen kv_type_prog io_type_prog vt_lookup_tab TARGET_DESTINATION). Qed.
+(** the documented I/O type decay, for the generated VALUE_TO_IO_DECAY and the literal spellings of IODef.export: what is written for
+    a member reads back as the decayed member, and the next parse + export writes the same text again *)
+Definition io_decay_table_ok : bool := io_decay_ok lower vt_lookup_tab TARGET_DESTINATION io_decay_tab io_special_text.
+Theorem c16_io_decay_text_fixpoint : forall fold tab sp decay_tab special, io_decay_ok fold tab sp decay_tab special = true ->
+  forall c d, In (c, d) decay_tab ->
+  let text := io_type_text (io_text_of decay_tab special) (Known c) in
+  spec_io fold tab sp text = (false, Known (io_decay_of decay_tab c)) /\
+  io_type_text (io_text_of decay_tab special) (snd (spec_io fold tab sp text)) = text.
+Proof. exact io_decay_fixpoint. Qed.
+(** the nearby wrong shape — casefold first, then look up and fall back to the folded text — loses the case of `Locale_ID` *)
+Example c16_fold_then_fallback_refuted :
+  trun lower [] fold_first_prog (kv_type_text (Custom LOCALE_ID)) = (false, Custom (lower LOCALE_ID)) /\ lower LOCALE_ID <> LOCALE_ID
+  /\ fallback_verbatim fold_first_prog = false.
+Proof. split; [vm_compute; reflexivity | split; [discriminate | vm_compute; reflexivity]]. Qed.
+(** the hypotheses of [c16_custom_kv_type_roundtrip] are satisfiable with a table that knows `integer` and `int` *)
+Example c16_type_text_example :
+  let tab := [([105; 110; 116], [105; 110; 116; 101; 103; 101; 114]); ([105; 110; 116; 101; 103; 101; 114], [105; 110; 116; 101; 103; 101; 114])] in
+  tab_ok lower tab = true /\
+  spec_kv lower tab [32; 42; 73; 78; 84; 32] = (true, Known [105; 110; 116; 101; 103; 101; 114]) /\
+  spec_kv lower tab LOCALE_ID = (false, Custom LOCALE_ID).
+Proof. vm_compute. auto. Qed.
+
+(** * Grouping the entities into blocks (SM/FgdBlocks.v; round 4)
+    [gen_bcfg] is read off _engine_db.build_blocks on every run: the three size tests and where blocks without entities leave
+    all_blocks.  For EVERY configuration that does not drop the (still empty) first overflow block before the leftovers are put
+    into it — whatever the size tests, sizes, block limit, order of the overlapping pairs and iteration order of the set of
+    unplaced entities — every entity is in exactly as many blocks as it occurs in the entity list: once.  serialise() writes the
+    class names and the data of every block of that list ([serialise_writes_every_entity], read off the two loops). *)
+Definition blocks_cfg_ok : bool := bcfg_ok gen_bcfg.
+Definition blocks_empty_dropped_at_end : bool := drop_empty_after_leftovers gen_bcfg.
+Definition blocks_all_written : bool := serialise_writes_every_entity.
+Theorem c16_every_entity_in_exactly_one_block : forall (cfg : bcfg) (size : N -> N) (maxsz : N) (all : list N) (pairs : list (N * N)) (order : list N),
+  bcfg_ok cfg = true -> nodupN all = true -> pairs_ok all pairs = true ->
+  (forall x, count_occ N.eq_dec order x = count_occ N.eq_dec (leftovers all (pair_loop cfg size maxsz pairs)) x) ->
+  forall x, count_occ N.eq_dec (List.concat (build_with cfg size maxsz pairs order)) x = count_occ N.eq_dec all x.
+Proof. exact build_with_places_every_entity. Qed.
+Theorem c16_no_empty_block_is_written : forall (cfg : bcfg) (size : N -> N) (maxsz : N) (pairs : list (N * N)) (order : list N),
+  drop_empty_after_leftovers cfg = true -> Forall (fun b => b <> []) (build_with cfg size maxsz pairs order).
+Proof. exact build_has_no_empty_block. Qed.
+(** the defect repaired by bdb271a: the empty overflow block leaves the list before the leftovers are put into it.
+    Entities 1..3 of size 1, limit 10, one overlapping pair (1, 2): entity 3 is in no block. *)
+Definition early_drop_cfg : bcfg :=
+  {| merge_fits := N.leb; add_fits := N.ltb; ovf_full := fun a b => N.leb b a; drop_empty_before_leftovers := true; drop_empty_after_leftovers := false |}.
+Example c16_early_drop_refuted :
+  build early_drop_cfg (fun _ => 1) 10 [1; 2; 3] [(1, 2)] = [[1; 2]] /\
+  build gen_bcfg (fun _ => 1) 10 [1; 2; 3] [(1, 2)] = (if blocks_cfg_ok then [[1; 2]; [3]] else build gen_bcfg (fun _ => 1) 10 [1; 2; 3] [(1, 2)]).
+Proof. split; vm_compute; reflexivity. Qed.
+Definition early_drop_breaks : bool := negb (memN 3 (List.concat (build early_drop_cfg (fun _ => 1) 10 [1; 2; 3] [(1, 2)]))).
+(** the hypotheses are satisfiable, merges and overflow splits included: 6 entities of size 4, limit 10 *)
+Example c16_blocks_example :
+  let all := [1; 2; 3; 4; 5; 6] in let pairs := [(1, 2); (3, 4); (2, 3); (1, 4)] in
+  nodupN all = true /\ pairs_ok all pairs = true /\
+  build {| merge_fits := N.leb; add_fits := N.ltb; ovf_full := fun a b => N.leb b a; drop_empty_before_leftovers := false;
+           drop_empty_after_leftovers := true |} (fun _ => 4) 10 all pairs = [[1; 2]; [3; 4]; [5; 6]].
+Proof. vm_compute. auto. Qed.
+
+(** * The keyword that opens an entity definition and the top-level dispatch of FGD.parse_file (Fmt/FgdKindKw.v; round 4)
+    [pf_directives], [pf_token_folded], [entity_kind_values], [kind_writer_ops] are read off FGD.parse_file, EntityTypes and
+    EntityDef.export on every run. *)
+Definition kind_keywords_read_back : bool := kinds_read_back pf_token_folded pf_directives entity_kind_values kind_writer_ops.
+Definition unfolded_dispatch_breaks : bool := negb (kinds_read_back false pf_directives entity_kind_values kind_writer_ops).
+Theorem c16_kind_keyword_roundtrip : forall folded directives kinds ops,
+  kinds_read_back folded directives kinds ops = true ->
+  forall v, In v kinds -> kw_dispatch folded directives kinds (kind_written ops v) = KKind v.
+Proof. exact kind_keyword_roundtrip. Qed.
+(** `@PointClass` is what the writer makes of `pointclass`; compared without casefold it is not an entity kind *)
+Example c16_kind_keyword_example :
+  let ops := [WTitle; WReplace [99; 108; 97; 115; 115] [67; 108; 97; 115; 115]] in
+  let pc := [112; 111; 105; 110; 116; 99; 108; 97; 115; 115] in
+  kind_written ops pc = [64; 80; 111; 105; 110; 116; 67; 108; 97; 115; 115] /\
+  kw_dispatch true [[64; 105]] [pc] (kind_written ops pc) = KKind pc /\ kw_dispatch false [[64; 105]] [pc] (kind_written ops pc) = KError.
+Proof. vm_compute. auto. Qed.
+
+(** * The whole property in one statement, for today's source (round 4)
+    The hypotheses are the named booleans over the objects that translate/c16_fgd.py regenerates from the source on every run; the
+    check discharges each of them, and their conjunction [c16_property_hypotheses], by vm_compute (instance obligations).  The
+    conclusion instantiates the parts above at those objects:
+    text — a whole entity definition as written (header, keyvalue / spawnflag / choices / I/O lines, @resources) is read back, with
+    [gen_line_cfg]; the type between the parentheses with [kv_type_prog] / [io_type_prog] / [vt_lookup_tab] (custom names verbatim,
+    known names idempotent); the kind keyword with the dispatch chain of FGD.parse_file;
+    binary — every entity is in exactly one block for [gen_bcfg] (records, blocks, header: c16_ent_bin_roundtrip,
+    c16_block_bin_roundtrip, c16_db_header_roundtrip are unconditional in the generated objects except for [bin_tables_ok]);
+    lazy — every history of one-at-a-time look-ups over a list of databases = the merged whole database, in the modes read from
+    the source. *)
+Definition entity_text_roundtrip_at (cfg : line_cfg) : Prop :=
+  forall (tag_norm : str -> str) (tags_valid : list str -> bool) (vt : Type) (vt_text : vt -> str) (vt_lookup : str -> option (bool * vt))
+         (vt_is_bool vt_is_flags vt_is_choices : vt -> bool) (io_text : vt -> str) (io_lookup : str -> option vt) (io_decay : vt -> vt)
+         (dec : N -> str) (undec : str -> option N) (pow2 : N -> bool) (rt : Type) (rt_text : rt -> str)
+         (rt_lookup : str -> option rt)
+         (H : Type) (known : str -> bool) (hparse : str -> list str -> option H) (hunknown : str -> list str -> H),
+  (forall v, vt_lookup (vt_text v) = Some (false, v)) -> (forall v, io_lookup (io_text v) = Some (io_decay v)) ->
+  (forall n, undec (dec n) = Some n) -> (forall t, rt_lookup (rt_text t) = Some t) ->
+  known KW_BASE = true -> known KW_ALIASOF = false ->
+  forall (label custom alias : bool) (bases : list str) (forms : list hform) (hidden : bool) (hs : list H) (cls : str) (secs : list str)
+         (items : list (nat * item vt)) (res : resources rt) (rest : list tok),
+  bases_ok bases -> Forall2 (form_ok H known hparse hunknown) forms hs -> strip cls = cls ->
+  Forall (item_wf tag_norm tags_valid vt vt_is_bool vt_is_flags vt_is_choices dec pow2 cfg label) (map snd items) ->
+  match res with Some l => Forall (riwf tag_norm tags_valid rt) l | None => True end ->
+  entity_read tag_norm tags_valid vt vt_lookup vt_is_bool vt_is_flags vt_is_choices io_lookup dec undec pow2 rt rt_lookup H known hparse hunknown
+    (entity_toks vt vt_text vt_is_bool vt_is_flags io_text dec cfg rt rt_text label custom alias bases forms hidden cls secs items res ++ rest)
+  = Some (mk_head H (match bases with [] => false | _ => alias && custom end) bases hs cls (List.concat secs),
+          with_res vt rt (fold_left (add_item vt vt_is_bool io_decay cfg rt custom) (map snd items) (mk_body vt rt [] [] [] None))
+                   (if custom then res else None),
+          rest).
+Definition multi_lazy_equals_eager_at (via : bool) (mode : merge_mode) : Prop :=
+  forall (name ent bytes : Type) (name_eqb : name -> name -> bool),
+  (forall a b, name_eqb a b = true <-> a = b) ->
+  forall (decode : list name -> bytes -> list ent),
+  (forall cs data, List.length (decode cs data) = List.length cs) ->
+  forall (ent_bases : ent -> list name) (is_empty : bytes -> bool) (empty_bytes : bytes),
+  is_empty empty_bytes = true ->
+  forall (f g : nat) (Bs : list (list (block name bytes))) (qs : list name),
+  Forall (file_ok name bytes is_empty) Bs ->
+  Forall (fun B => (List.length B <= f)%nat) Bs -> Forall (fun B => (List.length B <= g)%nat) Bs ->
+  fst (run_defs name ent bytes name_eqb decode ent_bases is_empty empty_bytes via f (map (init name ent bytes) Bs) qs)
+  = map (engine_dbase name ent bytes name_eqb decode ent_bases is_empty empty_bytes via mode g Bs) qs.
+Definition c16_property_hypotheses : bool :=
+  line_cfg_ok gen_line_cfg && kv_type_prog_ok && io_type_prog_ok && type_table_ok && kind_keywords_read_back
+  && blocks_cfg_ok && lazy_via_get_ent && multi_modes_agree.
+Fact and8_true (a b c d e f g h : bool) : a && b && c && d && e && f && g && h = true ->
+  a = true /\ b = true /\ c = true /\ d = true /\ e = true /\ f = true /\ g = true /\ h = true.
+Proof. destruct a, b, c, d, e, f, g, h; cbn; intros; try discriminate; repeat split. Qed.
+Fact line_cfg_ok_parts (c : line_cfg) : line_cfg_ok c = true -> colons_before_desc_without_default c = 2%nat /\ res_block_if_defined c = true.
+Proof.
+  unfold line_cfg_ok. intros H. apply andb_true_iff in H as [H R]. apply andb_true_iff in H as [H _]. split; [apply Nat.eqb_eq; exact H | exact R].
+Qed.
+Fact merge_is_first_eq (m : merge_mode) : merge_is_first m = true -> m = FirstWins.
+Proof. destruct m; [reflexivity | discriminate]. Qed.
+Theorem c16_property : c16_property_hypotheses = true ->
+  entity_text_roundtrip_at gen_line_cfg
+  /\ ((forall s, strip s = s -> starts_star s = false -> assoc (lower s) vt_lookup_tab = None ->
+         trun lower vt_lookup_tab kv_type_prog (kv_type_text (Custom s)) = (false, Custom s)) /\
+      (forall io_text s, strip s = s -> str_eqb s EHANDLE = false -> assoc (lower s) vt_lookup_tab = None ->
+         trun lower vt_lookup_tab io_type_prog (io_type_text io_text (Custom s)) = (false, Custom s)) /\
+      (forall raw b c, trun lower vt_lookup_tab kv_type_prog raw = (b, Known c) ->
+         trun lower vt_lookup_tab kv_type_prog (kv_type_text (Known c)) = (false, Known c)))
+  /\ (forall v, In v entity_kind_values ->
+        kw_dispatch pf_token_folded pf_directives entity_kind_values (kind_written kind_writer_ops v) = KKind v)
+  /\ (forall (size : N -> N) (maxsz : N) (all : list N) (pairs : list (N * N)) (order : list N),
+        nodupN all = true -> pairs_ok all pairs = true ->
+        (forall x, count_occ N.eq_dec order x = count_occ N.eq_dec (leftovers all (pair_loop gen_bcfg size maxsz pairs)) x) ->
+        forall x, count_occ N.eq_dec (List.concat (build_with gen_bcfg size maxsz pairs order)) x = count_occ N.eq_dec all x)
+  /\ multi_lazy_equals_eager_at lazy_via_get_ent engine_dbase_merge.
+Proof.
+  intros H. destruct (and8_true _ _ _ _ _ _ _ _ H) as (L & K & I & T & W & B & V & M). clear H.
+  destruct (line_cfg_ok_parts _ L) as [C2 R].
+  unfold multi_modes_agree in M. apply andb_true_iff in M as [M _]. apply merge_is_first_eq in M.
+  pose proof (type_text_property_gen kv_type_prog io_type_prog vt_lookup_tab TARGET_DESTINATION K I T) as (P1 & P2 & P3).
+  split; [|split; [|split; [|split]]].
+  - unfold entity_text_roundtrip_at. intros. apply entity_roundtrip; assumption.
+  - exact (conj P1 (conj P2 P3)).
+  - apply kind_keyword_roundtrip. exact W.
+  - intros. apply build_with_places_every_entity; assumption.
+  - rewrite M. unfold multi_lazy_equals_eager_at. intros. apply multi_lazy_equals_eager; assumption.
+Qed.
